@@ -8,19 +8,21 @@ manages polling based on target capacity and re-polls after work completion.
 from __future__ import annotations
 
 import logging
-from dataclasses import dataclass
+from dataclasses import dataclass, field
 from typing import TYPE_CHECKING
 
 from happysimulator.components.queue import QueueDeliverEvent, QueueNotifyEvent, QueuePollEvent
 from happysimulator.core.entity import Entity
+from happysimulator.core.event import Event
 
 if TYPE_CHECKING:
     from collections.abc import Generator
 
-    from happysimulator.core.event import Event
     from happysimulator.core.temporal import Instant
 
 logger = logging.getLogger(__name__)
+
+_RECHECK = "QUEUE_DRIVER_RECHECK"
 
 
 @dataclass
@@ -34,9 +36,14 @@ class QueueDriver(Entity):
     Event flow:
     1. Queue sends QueueNotifyEvent when items are available
     2. Driver checks target.has_capacity() and polls if ready
-    3. Queue sends QueueDeliverEvent with payload
+    3. Queue sends QueueDeliverEvent with payload (or an empty one)
     4. Driver retargets payload to target and schedules it
-    5. On completion, driver re-polls if target has capacity
+    5. Once the target has taken the item, and again on completion, the
+       driver re-polls if target has capacity
+
+    At most one poll is outstanding at any time: ``has_capacity()`` cannot see
+    an item that is still on its way to the target, so a second poll issued in
+    that window could hand over more work than the target has room for.
 
     Attributes:
         name: Identifier for logging.
@@ -47,6 +54,7 @@ class QueueDriver(Entity):
     name: str = "QueueDriver"
     queue: Entity = None
     target: Entity = None
+    _poll_outstanding: bool = field(default=False, init=False, repr=False)
 
     def downstream_entities(self) -> list[Entity]:
         result: list[Entity] = []
@@ -61,12 +69,31 @@ class QueueDriver(Entity):
         if isinstance(event, QueueDeliverEvent):
             return self._handle_delivery(event)
 
+        if event.event_type == _RECHECK:
+            # The delivered item has reached the target: capacity is accurate again.
+            self._poll_outstanding = False
+            return self._poll_events(self.now)
+
         return []
+
+    def poll_if_ready(self, time: Instant | None = None) -> QueuePollEvent | None:
+        """Ask the queue for one item if the target has room and no poll is under way."""
+        if self._poll_outstanding or not self.target.has_capacity():
+            return None
+        self._poll_outstanding = True
+        return QueuePollEvent(
+            time=time if time is not None else self.now, target=self.queue, requestor=self
+        )
+
+    def _poll_events(self, time: Instant) -> list[Event]:
+        poll = self.poll_if_ready(time)
+        return [poll] if poll is not None else []
 
     def _handle_delivery(self, event: QueueDeliverEvent) -> list[Event]:
         """Queue delivered one payload event; clone/retarget and re-emit."""
         if event.payload is None:
             logger.debug("[%s] Received empty delivery", self.name)
+            self._poll_outstanding = False
             return []
         logger.debug(
             "[%s] Received delivery: type=%s, forwarding to target",
@@ -77,23 +104,17 @@ class QueueDriver(Entity):
 
     def _handle_work_payload(self, payload: Event) -> list[Event]:
         def schedule_poll(time: Instant):
-            if self.target.has_capacity():
-                logger.debug("[%s] Target has capacity, scheduling poll", self.name)
-                return QueuePollEvent(time=time, target=self.queue, requestor=self)
-            logger.debug("[%s] Target at capacity, deferring poll", self.name)
-            return None
+            return self.poll_if_ready(time)
 
         target_event = payload
         target_event.time = self.now
         target_event.target = self.target
         target_event.add_completion_hook(schedule_poll)
-        return [target_event]
+        # The payload keeps its original (older) sort index, so at this instant it
+        # is delivered before the re-check created here.
+        recheck = Event(time=self.now, event_type=_RECHECK, target=self)
+        return [target_event, recheck]
 
     def _handle_notify(self, _: QueueNotifyEvent) -> list[Event]:
         """Queue has work available—poll if target has capacity."""
-        if not self.target.has_capacity():
-            logger.debug("[%s] Notify received but target at capacity", self.name)
-            return []
-
-        logger.debug("[%s] Notify received, polling queue", self.name)
-        return [QueuePollEvent(time=self.now, target=self.queue, requestor=self)]
+        return self._poll_events(self.now)
